@@ -37,6 +37,9 @@ CONTENTS = {
     'RESERVED': lambda n: json.dumps({'default': pol(n + 400), 'public': pol(n + 500), 'X': pol(n + 600)}),
     'NONOBJ': lambda n: json.dumps([{'X': pol(n)}]),
     'LEGACY': lambda n: json.dumps({'Y': {'SYMMETRIC_KEY': {'GET': 'ALLOW_ALL'}}}),
+    # bad JSON nested far beyond what any parser recurses into
+    'DEEPARRAY': lambda n: '[' * 150000,
+    'DEEPOBJECT': lambda n: '{"X": {"preset": ' * 60000,
 }
 VALID = {'X1', 'Y1', 'XY', 'EMPTY', 'EMPTYPOL', 'RESERVED', 'LEGACY'}
 QUICK_ALPHABET = ['X1', 'Y1', 'XY', 'EMPTY', 'BADJSON', 'BADPERM', 'RESERVED', 'NONOBJ']
@@ -200,6 +203,9 @@ class Bench(object):
         self.n = 0
         self.trace = []
         self.pending = []
+        self.last_mtime = {}
+        self.gone_at_scan = set()
+        self.restored = 0
 
     def write(self, f, cclass):
         self.n += 1
@@ -208,9 +214,16 @@ class Bench(object):
         with open(p, 'w') as fh:
             fh.write(text)
         self.clock += 10
-        os.utime(p, (self.clock, self.clock))
+        stamp = self.clock
+        if f in self.gone_at_scan and f in self.last_mtime and self.n % 2 == 0:
+            # a file that was removed (and seen removed by a scan) comes back with the modification time it had before, or
+            # an older one - `mv` out and back, `cp -p` of an earlier revision: it is in the directory again, so it counts
+            stamp = self.last_mtime[f] - (0 if self.n % 4 else 5)
+            self.restored += 1
+        os.utime(p, (stamp, stamp))
+        self.last_mtime[f] = stamp
         self.pending.append(('w', f, cclass, text))
-        self.trace.append(['w', f, cclass])
+        self.trace.append(['w' if stamp == self.clock else 'w-old-mtime', f, cclass])
 
     def remove(self, f):
         p = os.path.join(self.dir, f)
@@ -242,6 +255,10 @@ class Bench(object):
                 self.model.load(f, parsed)
         events_ = [e[:3] for e in self.pending]
         self.pending = []
+        self.gone_at_scan = set(FILES) - set(f_ for f_ in FILES if os.path.exists(os.path.join(self.dir, f_)))
+        if self.restored:
+            ctx.count('files_restored_with_an_old_mtime', self.restored)
+            self.restored = 0
         self.trace.append(['scan'])
         try:
             self.mon.scan_policies()
